@@ -1,6 +1,9 @@
 /-
-  Lemmas for C13: the inductive invariant of the hard-link hand-off
-  (`SyModel.Hardlink.Protocol`) and its preservation by every micro-step.
+  Lemmas for C13: the inductive invariants of the hard-link hand-off
+  (`SyModel.Hardlink.Protocol`) and their preservation by every micro-step.
+  `Inv`  — protocol bookkeeping (both variants, no assumption on the destination);
+  `InvR` — what needs the repaired protocol (nobody waits on a worker that cannot move);
+  `InvD` — the destination name space (needs a well-formed pre-run destination, `Cfg.DstOk`).
 -/
 import SyModel.Lemmas.HardlinkMeasure
 namespace SyModel.Hardlink
@@ -10,7 +13,7 @@ set_option linter.unusedSimpArgs false
 
 /-- between a successful claim and the release of the claim (entry is `InProgress(self)`). -/
 def Pc.holdsClaim : Pc → Bool
-  | .mkdirOp _ | .copyOp _ | .metaOp | .complete | .cleanup _ => true
+  | .mkdirOp _ | .copyOp _ | .syncOp _ | .metaOp | .complete | .cleanup _ => true
   | _ => false
 
 /-- entry already changed, `notify_waiters()` still to be called. -/
@@ -20,7 +23,7 @@ def Pc.notifying : Pc → Bool
 
 /-- pcs a worker outside the hard-link branch can be at. -/
 def Pc.plainOk : Pc → Bool
-  | .start | .mkdirOp _ | .copyOp _ | .metaOp | .done _ => true
+  | .start | .mkdirOp _ | .copyOp _ | .syncOp _ | .metaOp | .done _ => true
   | _ => false
 
 /-- the `Notify` a worker is about to wait / waiting on. -/
@@ -28,10 +31,27 @@ def Pc.waitsOn : Pc → Option Nat
   | .sawInProgress g | .armed g _ | .waiting g _ => some g
   | _ => none
 
-/-- the worker's own copy is in place (between `copy_file` and the insertion of `Completed`). -/
+/-- the first path a non-owner is about to link its own path to. -/
+def Pc.linksTo : Pc → Option Nat
+  | .linkOp p _ | .sameOp p | .removeOp p _ => some p
+  | _ => none
+
+/-- the worker's own copy is in place (between the copy and the insertion of `Completed`). -/
 def Pc.copied : Pc → Bool
   | .metaOp | .complete => true
   | _ => false
+
+/-- the worker's copy operation (`copy_file` / `sync_file_with_delta`) is behind it, or it never
+    had one. -/
+def Pc.pastCopy : Pc → Bool
+  | .metaOp | .complete | .notifyOk | .cleanup _ | .failNotify _ | .done _ => true
+  | _ => false
+
+/-- an updated path still names its pre-run file or its rewrite (it is removed only just before it
+    is re-linked). -/
+def Pc.beforeRelink : Pc → Bool
+  | .linkOp _ _ | .done _ => false
+  | _ => true
 
 theorem Pc.holdsClaim_not_done (pc : Pc) (h : pc.holdsClaim = true) : pc.isDone = false := by
   cases pc <;> simp_all [Pc.holdsClaim, Pc.isDone]
@@ -39,9 +59,9 @@ theorem Pc.holdsClaim_not_done (pc : Pc) (h : pc.holdsClaim = true) : pc.isDone 
 theorem Pc.notifying_not_done (pc : Pc) (h : pc.notifying = true) : pc.isDone = false := by
   cases pc <;> simp_all [Pc.notifying, Pc.isDone]
 
-/-! ### the invariant -/
+/-! ### the invariants -/
 
-/-- Clauses that hold for both variants of the protocol. -/
+/-- Protocol bookkeeping; holds for both variants. -/
 structure Inv (cfg : Cfg) (s : State) : Prop where
   /-- workers outside the hard-link branch never touch the map -/
   plain : ∀ v, (cfg.worker v).linked = false → (s.pc v).plainOk = true
@@ -55,24 +75,13 @@ structure Inv (cfg : Cfg) (s : State) : Prop where
       ((s.pc g).holdsClaim = true ∨ (cfg.variant = .pinned ∧ ∃ op, s.pc g = .done (.err op)))
   /-- a `Notify` is signalled only by its creator's last step -/
   notified : ∀ g, s.calls g = 0 ∨ (s.pc g).isDone = true
-  /-- a `Completed` entry names a finished (or notifying) owner whose copy is in place -/
+  /-- a `Completed` entry names a finished (or notifying) owner -/
   mapDone : ∀ i p, s.map i = some (.completed p) →
     p < cfg.n ∧ (cfg.worker p).linked = true ∧ (cfg.worker p).inode = i ∧
-      s.dst p = some ⟨p, cfg.content i⟩ ∧ (s.pc p = .notifyOk ∨ s.pc p = .done .ok)
-  /-- after `copy_file` the worker's own destination is a fresh inode with the source's content -/
-  copied : ∀ v, (s.pc v).copied = true → s.dst v = some ⟨v, cfg.content (cfg.worker v).inode⟩
-  /-- a linking worker links to the recorded first path of its own inode -/
-  linking : ∀ v p k, s.pc v = .linkOp p k →
+      (s.pc p = .notifyOk ∨ s.pc p = .done .ok)
+  /-- a non-owner links to the recorded first path of its own inode -/
+  linking : ∀ v p, (s.pc v).linksTo = some p →
     (cfg.worker v).linked = true ∧ s.map (cfg.worker v).inode = some (.completed p)
-  /-- result `ok` of a hard-link candidate: its path shares the inode of the recorded first path -/
-  okLinked : ∀ v, (cfg.worker v).linked = true → s.pc v = .done .ok →
-    ∃ p, s.map (cfg.worker v).inode = some (.completed p) ∧
-      s.dst v = some ⟨p, cfg.content (cfg.worker v).inode⟩
-  /-- result `ok` of an ordinary file: own fresh inode -/
-  okPlain : ∀ v, (cfg.worker v).linked = false → s.pc v = .done .ok →
-    s.dst v = some ⟨v, cfg.content (cfg.worker v).inode⟩
-  /-- ids outside the run never move -/
-  untouched : ∀ v, cfg.n ≤ v → s.pc v = .start
   /-- an owner about to signal success has recorded its own path -/
   notifyOkMap : ∀ v, s.pc v = .notifyOk →
     (cfg.worker v).linked = true ∧ s.map (cfg.worker v).inode = some (.completed v)
@@ -88,15 +97,156 @@ structure InvR (cfg : Cfg) (s : State) : Prop where
   snapWaiting : ∀ v g snap, s.pc v = .waiting g snap → snap = 0
   snapArmed : ∀ v g snap, s.pc v = .armed g snap → snap ≤ s.calls g
 
-theorem inv_init (cfg : Cfg) : Inv cfg init := by
-  constructor <;> simp [init, Pc.plainOk, Pc.holdsClaim, Pc.copied]
+/-- The pre-run destination is a real name space: inode ids of existing files do not collide with
+    the ids of inodes created in the run, names of one inode show one content, and — the condition
+    the current code needs (`C13/update-writes-through-foreign-link`) — two names of one destination
+    inode belong to one source inode. -/
+structure Cfg.DstOk (cfg : Cfg) : Prop where
+  oldInodes : ∀ q f, q < cfg.n → (cfg.worker q).dst0 = some f → cfg.n ≤ f.ino
+  inoContent : ∀ q r fq fr, q < cfg.n → r < cfg.n → (cfg.worker q).dst0 = some fq →
+    (cfg.worker r).dst0 = some fr → fq.ino = fr.ino → fq.content = fr.content
+  noForeignLinks : ∀ q r fq fr, q < cfg.n → r < cfg.n → (cfg.worker q).dst0 = some fq →
+    (cfg.worker r).dst0 = some fr → fq.ino = fr.ino → (cfg.worker q).inode = (cfg.worker r).inode
+  /-- the planner issues an update only for an existing destination file -/
+  updateHasDst : ∀ q, q < cfg.n → (cfg.worker q).action = .update → (cfg.worker q).dst0.isSome = true
 
-theorem invR_init (cfg : Cfg) : InvR cfg init := by
-  constructor <;> simp [init, Pc.waitsOn]
+/-- The destination name space (`(s.dst q).map File.ino` = the inode a path names, if it exists). -/
+structure InvD (cfg : Cfg) (s : State) : Prop where
+  /-- names of one destination inode belong to one source inode -/
+  refines : ∀ q r i, (s.dst q).map File.ino = some i → (s.dst r).map File.ino = some i →
+    (cfg.worker q).inode = (cfg.worker r).inode
+  /-- names of one inode show one content -/
+  inoContent : ∀ q r i, (s.dst q).map File.ino = some i → (s.dst r).map File.ino = some i →
+    (s.dst q).map File.content = (s.dst r).map File.content
+  /-- an inode created in the run was created by a worker of the same source inode, whose copy
+      operation is behind it -/
+  freshOwner : ∀ q i, (s.dst q).map File.ino = some i → i < cfg.n →
+    (cfg.worker q).inode = (cfg.worker i).inode ∧ (s.pc i).pastCopy = true
+  /-- the recorded first path exists and has the source's content -/
+  doneDst : ∀ i p, s.map i = some (.completed p) → (s.dst p).map File.content = some (cfg.content i)
+  /-- after its copy operation the worker's own destination has the source's content -/
+  copied : ∀ v, (s.pc v).copied = true →
+    (s.dst v).map File.content = some (cfg.content (cfg.worker v).inode)
+  /-- result `ok` of a hard-link candidate that was transferred: a first path is recorded … -/
+  okLinkedMap : ∀ v, (cfg.worker v).linked = true → (cfg.worker v).action ≠ .skip →
+    s.pc v = .done .ok → ∃ p, s.map (cfg.worker v).inode = some (.completed p)
+  /-- … its path names the inode of that first path and has the source's content -/
+  okLinkedDst : ∀ v p, (cfg.worker v).linked = true → (cfg.worker v).action ≠ .skip →
+    s.pc v = .done .ok → s.map (cfg.worker v).inode = some (.completed p) →
+      (s.dst v).map File.ino = (s.dst p).map File.ino ∧
+      (s.dst v).map File.content = some (cfg.content (cfg.worker v).inode)
+  /-- result `ok` of an ordinary file that was transferred -/
+  okPlain : ∀ v, (cfg.worker v).linked = false → (cfg.worker v).action ≠ .skip → s.pc v = .done .ok →
+    (s.dst v).map File.content = some (cfg.content (cfg.worker v).inode)
+  /-- paths outside the run do not exist -/
+  outside : ∀ v, cfg.n ≤ v → s.dst v = none
+  /-- nobody but the updating worker itself removes the path it updates -/
+  updDst : ∀ v, v < cfg.n → (cfg.worker v).action = .update → (s.pc v).beforeRelink = true →
+    (s.dst v).isSome = true
+
+/-! ### `writeThrough` seen through `Option.map` -/
+
+theorem wt_ino (d : Nat → Option File) (w c v : Nat) :
+    (writeThrough d w c v).map File.ino = (d v).map File.ino := by
+  unfold writeThrough
+  cases d w <;> cases d v <;> simp
+  split <;> simp
+
+theorem wt_content (d : Nat → Option File) (w c v : Nat) :
+    (writeThrough d w c v).map File.content =
+      if (d v).isSome = true ∧ (d v).map File.ino = (d w).map File.ino then some c
+      else (d v).map File.content := by
+  unfold writeThrough
+  cases hw : d w <;> cases hv : d v <;> simp
+  split <;> simp_all
+
+theorem isSome_of_ino (o : Option File) (i : Nat) (h : o.map File.ino = some i) : o.isSome = true := by
+  cases o <;> simp_all
+
+theorem wt_isSome (d : Nat → Option File) (w c v : Nat) :
+    (writeThrough d w c v).isSome = (d v).isSome := by
+  unfold writeThrough
+  cases hw : d w <;> cases hv : d v <;> simp
+  split <;> simp
+
+theorem wt_none (d : Nat → Option File) (w c v : Nat) : writeThrough d w c v = none ↔ d v = none := by
+  unfold writeThrough
+  cases hw : d w <;> cases hv : d v <;> simp
+  split <;> simp
+
+theorem inv_init (cfg : Cfg) : Inv cfg (init cfg) := by
+  constructor
+  · intro v _; simp only [init]; split <;> rfl
+  · intro v _ h; simp only [init] at h; split at h <;> simp [Pc.holdsClaim] at h
+  · intro i g h; simp [init] at h
+  · intro g; left; rfl
+  · intro i p h; simp [init] at h
+  · intro v p h; simp only [init] at h; split at h <;> simp [Pc.linksTo] at h
+  · intro v h; simp only [init] at h; split at h <;> cases h
+
+theorem invR_init (cfg : Cfg) : InvR cfg (init cfg) := by
+  constructor
+  · intro v g h; simp only [init] at h; split at h <;> simp [Pc.waitsOn] at h
+  · intro v g snap h; simp only [init] at h; split at h <;> cases h
+  · intro v g snap h; simp only [init] at h; split at h <;> cases h
+
+theorem invD_init (cfg : Cfg) (h : cfg.DstOk) : InvD cfg (init cfg) := by
+  obtain ⟨h1, h2, h3, h4⟩ := h
+  have key : ∀ q i, ((init cfg).dst q).map File.ino = some i →
+      q < cfg.n ∧ ∃ f, (cfg.worker q).dst0 = some f ∧ f.ino = i := by
+    intro q i hq
+    simp only [init] at hq
+    split at hq
+    · refine ⟨‹_›, ?_⟩
+      cases hf : (cfg.worker q).dst0 with
+      | none => simp [hf] at hq
+      | some f => simp [hf] at hq; exact ⟨f, rfl, hq⟩
+    · simp at hq
+  have dst_eq : ∀ q, q < cfg.n → (init cfg).dst q = (cfg.worker q).dst0 := by
+    intro q hq; simp [init, hq]
+  constructor
+  · intro q r i hq hr
+    obtain ⟨hq', fq, hfq, hiq⟩ := key q i hq
+    obtain ⟨hr', fr, hfr, hir⟩ := key r i hr
+    exact h3 q r fq fr hq' hr' hfq hfr (by rw [hiq, hir])
+  · intro q r i hq hr
+    obtain ⟨hq', fq, hfq, hiq⟩ := key q i hq
+    obtain ⟨hr', fr, hfr, hir⟩ := key r i hr
+    rw [dst_eq q hq', dst_eq r hr', hfq, hfr]
+    simp [h2 q r fq fr hq' hr' hfq hfr (by rw [hiq, hir])]
+  · intro q i hq hlt
+    obtain ⟨hq', f, hf, hi⟩ := key q i hq
+    have := h1 q f hq' hf
+    omega
+  · intro i p hm; simp [init] at hm
+  · intro v hv
+    simp only [init] at hv
+    split at hv <;> simp [Pc.copied] at hv
+  · intro v _ hs hp
+    simp only [init] at hp
+    split at hp
+    · exact absurd ‹_› hs
+    · cases hp
+  · intro v p _ hs hp
+    simp only [init] at hp
+    split at hp
+    · exact absurd ‹_› hs
+    · cases hp
+  · intro v _ hs hp
+    simp only [init] at hp
+    split at hp
+    · exact absurd ‹_› hs
+    · cases hp
+  · intro v hv
+    simp only [init]
+    rw [if_neg (by omega)]
+  · intro v hv hu _
+    rw [dst_eq v hv]
+    exact h4 v hv hu
 
 /-! ### preservation, one lemma per program counter (keeps each proof small) -/
 
-/-- the ten clauses of `Inv` for a state of the form `s.apply w i e` with concrete `e`. -/
+/-- the clauses of `Inv` for a state of the form `s.apply w i e` with concrete `e`. -/
 macro "inv_clauses" : tactic => `(tactic| (
   constructor
   · intro v; simp only [State.apply]; grind [Pc.plainOk]
@@ -104,27 +254,77 @@ macro "inv_clauses" : tactic => `(tactic| (
   · intro i g; simp only [State.apply]; grind [Pc.holdsClaim]
   · intro g; simp only [State.apply]; grind [Pc.isDone]
   · intro i p; simp only [State.apply]; grind
-  · intro v; simp only [State.apply]; grind [Pc.copied]
-  · intro v p k; simp only [State.apply]; grind
-  · intro v; simp only [State.apply]; grind
-  · intro v; simp only [State.apply]; grind
-  · intro v; simp only [State.apply]; grind
+  · intro v p; simp only [State.apply]; grind [Pc.linksTo]
   · intro v; simp only [State.apply]; grind))
 
 /-- destructure the invariant and specialise the pc-class clauses to the acting worker. -/
 macro "inv_pre" hi:ident hpc:ident w:ident : tactic => `(tactic| (
-  obtain ⟨h1, h2, h3, h4, h5, h6, h7, h8, h9, h10, h11⟩ := $hi
-  have hw11 := h11 $w
+  obtain ⟨h1, h2, h3, h4, h5, h6, h7⟩ := $hi
+  have hw7 := h7 $w
   have hw1 := h1 $w
   have hw2 := h2 $w
   have hw6 := h6 $w
-  simp only [$hpc:ident, Pc.plainOk, Pc.holdsClaim, Pc.copied] at hw1 hw2 hw6 hw11))
+  simp only [$hpc:ident, Pc.plainOk, Pc.holdsClaim, Pc.linksTo] at hw1 hw2 hw6 hw7))
 
 /-- split the definition of `next` at a fixed pc into its branches and prove every clause. -/
 macro "inv_case" hi:ident hpc:ident w:ident hnext:ident : tactic => `(tactic| (
   inv_pre $hi $hpc $w
   simp only [next, failPc] at $hnext:ident
   (repeat' split at $hnext:ident) <;> (cases $hnext:ident <;> inv_clauses)))
+
+macro "invR_clauses" : tactic => `(tactic| (
+  constructor
+  · intro v g; simp only [State.apply]; grind [Pc.waitsOn, Pc.holdsClaim, Pc.notifying]
+  · intro v g snap; simp only [State.apply]; grind [Pc.holdsClaim, Pc.isDone, Pc.holdsClaim_not_done]
+  · intro v g snap; simp only [State.apply]; grind))
+
+macro "invR_case" hi:ident hr:ident hpc:ident w:ident hnext:ident : tactic => `(tactic| (
+  inv_pre $hi $hpc $w
+  obtain ⟨r1, r2, r3⟩ := $hr
+  have hr1 := r1 $w
+  simp only [$hpc:ident, Pc.waitsOn] at hr1
+  simp only [next, failPc] at $hnext:ident
+  (repeat' split at $hnext:ident) <;> (cases $hnext:ident <;> invR_clauses)))
+
+set_option hygiene false in
+/-- the clauses of `InvD`; every clause keeps only the hypotheses it needs. -/
+macro "invD_clauses" : tactic => `(tactic| (
+  constructor
+  · intro q r i; clear h1 h2 h3 h4 h7 hw1 hw2 hw7 d2 d4 d5 d6 d6' d7 d8 hd5 d9
+    simp only [State.apply, wt_ino, wt_content, apply_ite (Option.map File.ino), apply_ite (Option.map File.content), Option.map_some, Option.map_none]; grind [isSome_of_ino, Option.isSome_some, Option.isSome_none]
+  · intro q r i; clear h1 h2 h3 h4 h5 h6 h7 hw1 hw2 hw6 hw7 d4 d5 d6 d6' d7 d8 hd5 d9
+    simp only [State.apply, wt_ino, wt_content, apply_ite (Option.map File.ino), apply_ite (Option.map File.content), Option.map_some, Option.map_none]; grind [Pc.pastCopy, isSome_of_ino, Option.isSome_some, Option.isSome_none]
+  · intro q i; clear h1 h2 h3 h4 h7 hw1 hw2 hw7 d2 d4 d5 d6 d6' d7 d8 hd5 d9
+    simp only [State.apply, wt_ino, wt_content, apply_ite (Option.map File.ino), apply_ite (Option.map File.content), Option.map_some, Option.map_none]; grind [Pc.pastCopy, isSome_of_ino, Option.isSome_some, Option.isSome_none]
+  · intro i p; clear h1 h2 h3 h4 hw1 d2 d3 d6 d6' d7 d8 hd3 d9
+    simp only [State.apply, wt_ino, wt_content, apply_ite (Option.map File.ino), apply_ite (Option.map File.content), Option.map_some, Option.map_none]; grind [Pc.holdsClaim, isSome_of_ino, Option.isSome_some, Option.isSome_none]
+  · intro v; clear h1 h2 h3 h4 h7 hw1 hw2 hw7 d2 d3 d4 d6 d6' d7 d8 hd3 d9
+    simp only [State.apply, wt_ino, wt_content, apply_ite (Option.map File.ino), apply_ite (Option.map File.content), Option.map_some, Option.map_none]; grind [Pc.copied, isSome_of_ino, Option.isSome_some, Option.isSome_none]
+  · intro v; clear h1 h2 h3 h4 d1 d2 d3 d4 d5 d6' d7 d8 hd3 hd5 d9
+    simp only [State.apply, wt_ino, wt_content, apply_ite (Option.map File.ino), apply_ite (Option.map File.content), Option.map_some, Option.map_none]; grind [isSome_of_ino, Option.isSome_some, Option.isSome_none]
+  · intro v p; clear h1 h2 h3 h4 d3 d5 d7 d8 hd3 hd5 d9
+    simp only [State.apply, wt_ino, wt_content, apply_ite (Option.map File.ino), apply_ite (Option.map File.content), Option.map_some, Option.map_none]; grind [isSome_of_ino, Option.isSome_some, Option.isSome_none]
+  · intro v; clear h2 h3 h4 hw2 d2 d3 d4 d6 d6' d8 hd3 d9
+    simp only [State.apply, wt_ino, wt_content, apply_ite (Option.map File.ino), apply_ite (Option.map File.content), Option.map_some, Option.map_none]; grind [Pc.plainOk, isSome_of_ino, Option.isSome_some, Option.isSome_none]
+  · intro v; clear h1 h2 h3 h4 h5 h6 h7 hw1 hw2 hw6 hw7 d1 d2 d3 d4 d5 d6 d6' d7 hd3 hd5 d9
+    simp only [State.apply, wt_ino, wt_content, apply_ite (Option.map File.ino), apply_ite (Option.map File.content), Option.map_some, Option.map_none]; grind [wt_none]
+  · intro v; clear h1 h2 h3 h4 h5 h6 h7 hw1 hw2 hw6 hw7 d1 d2 d3 d4 d5 d6 d6' d7 d8 hd3 hd5
+    simp only [State.apply, wt_isSome, apply_ite Option.isSome, Option.isSome_some, Option.isSome_none]; grind [Pc.beforeRelink]))
+
+set_option hygiene false in
+macro "invD_case" hi:ident hd:ident hpc:ident w:ident hnext:ident : tactic => `(tactic| (
+  obtain ⟨h1, h2, h3, h4, h5, h6, h7⟩ := $hi
+  have hw7 := h7 $w
+  have hw1 := h1 $w
+  have hw2 := h2 $w
+  have hw6 := h6 $w
+  simp only [$hpc:ident, Pc.plainOk, Pc.holdsClaim, Pc.linksTo] at hw1 hw2 hw6 hw7
+  obtain ⟨d1, d2, d3, d4, d5, d6, d6', d7, d8, d9⟩ := $hd
+  have hd5 := d5 $w
+  have hd3 := d3 $w
+  simp only [$hpc:ident, Pc.copied, Pc.pastCopy] at hd5
+  simp only [next, failPc] at $hnext:ident
+  (repeat' split at $hnext:ident) <;> (cases $hnext:ident <;> invD_clauses)))
 
 section
 variable {cfg : Cfg} {s : State} {w : Nat} {l : Label} {e : Effect}
@@ -157,7 +357,16 @@ theorem inv_waiting {g snap : Nat} (hi : Inv cfg s) (hw : w < cfg.n) (hpc : s.pc
 theorem inv_linkOp {p k : Nat} (hi : Inv cfg s) (hw : w < cfg.n) (hpc : s.pc w = .linkOp p k)
     (hnext : next cfg w (cfg.worker w) (.linkOp p k) (s.map (cfg.worker w).inode) s.calls s.dst = some (l, e)) :
     Inv cfg (s.apply w (cfg.worker w).inode e) := by
-  have hw7 := hi.linking w p k hpc
+  cases k <;> inv_case hi hpc w hnext
+
+theorem inv_sameOp {p : Nat} (hi : Inv cfg s) (hw : w < cfg.n) (hpc : s.pc w = .sameOp p)
+    (hnext : next cfg w (cfg.worker w) (.sameOp p) (s.map (cfg.worker w).inode) s.calls s.dst = some (l, e)) :
+    Inv cfg (s.apply w (cfg.worker w).inode e) := by
+  inv_case hi hpc w hnext
+
+theorem inv_removeOp {p k : Nat} (hi : Inv cfg s) (hw : w < cfg.n) (hpc : s.pc w = .removeOp p k)
+    (hnext : next cfg w (cfg.worker w) (.removeOp p k) (s.map (cfg.worker w).inode) s.calls s.dst = some (l, e)) :
+    Inv cfg (s.apply w (cfg.worker w).inode e) := by
   cases k <;> inv_case hi hpc w hnext
 
 theorem inv_mkdirOp {k : Nat} (hi : Inv cfg s) (hw : w < cfg.n) (hpc : s.pc w = .mkdirOp k)
@@ -167,6 +376,11 @@ theorem inv_mkdirOp {k : Nat} (hi : Inv cfg s) (hw : w < cfg.n) (hpc : s.pc w = 
 
 theorem inv_copyOp {k : Nat} (hi : Inv cfg s) (hw : w < cfg.n) (hpc : s.pc w = .copyOp k)
     (hnext : next cfg w (cfg.worker w) (.copyOp k) (s.map (cfg.worker w).inode) s.calls s.dst = some (l, e)) :
+    Inv cfg (s.apply w (cfg.worker w).inode e) := by
+  cases k <;> inv_case hi hpc w hnext
+
+theorem inv_syncOp {k : Nat} (hi : Inv cfg s) (hw : w < cfg.n) (hpc : s.pc w = .syncOp k)
+    (hnext : next cfg w (cfg.worker w) (.syncOp k) (s.map (cfg.worker w).inode) s.calls s.dst = some (l, e)) :
     Inv cfg (s.apply w (cfg.worker w).inode e) := by
   cases k <;> inv_case hi hpc w hnext
 
@@ -195,9 +409,170 @@ theorem inv_failNotify {op : Op} (hi : Inv cfg s) (hw : w < cfg.n) (hpc : s.pc w
     Inv cfg (s.apply w (cfg.worker w).inode e) := by
   inv_case hi hpc w hnext
 
+theorem invR_start (hi : Inv cfg s) (hr : InvR cfg s) (hv : cfg.variant = .repaired) (hw : w < cfg.n) (hpc : s.pc w = .start)
+    (hnext : next cfg w (cfg.worker w) .start (s.map (cfg.worker w).inode) s.calls s.dst = some (l, e)) :
+    InvR cfg (s.apply w (cfg.worker w).inode e) := by
+  invR_case hi hr hpc w hnext
+
+theorem invR_sawNone (hi : Inv cfg s) (hr : InvR cfg s) (hv : cfg.variant = .repaired) (hw : w < cfg.n) (hpc : s.pc w = .sawNone)
+    (hnext : next cfg w (cfg.worker w) .sawNone (s.map (cfg.worker w).inode) s.calls s.dst = some (l, e)) :
+    InvR cfg (s.apply w (cfg.worker w).inode e) := by
+  invR_case hi hr hpc w hnext
+
+theorem invR_sawInProgress {g : Nat} (hi : Inv cfg s) (hr : InvR cfg s) (hv : cfg.variant = .repaired) (hw : w < cfg.n) (hpc : s.pc w = .sawInProgress g)
+    (hnext : next cfg w (cfg.worker w) (.sawInProgress g) (s.map (cfg.worker w).inode) s.calls s.dst = some (l, e)) :
+    InvR cfg (s.apply w (cfg.worker w).inode e) := by
+  invR_case hi hr hpc w hnext
+
+theorem invR_armed {g snap : Nat} (hi : Inv cfg s) (hr : InvR cfg s) (hv : cfg.variant = .repaired) (hw : w < cfg.n) (hpc : s.pc w = .armed g snap)
+    (hnext : next cfg w (cfg.worker w) (.armed g snap) (s.map (cfg.worker w).inode) s.calls s.dst = some (l, e)) :
+    InvR cfg (s.apply w (cfg.worker w).inode e) := by
+  have hsnap := hr.snapArmed w g snap hpc
+  have hnot := hi.notified g
+  invR_case hi hr hpc w hnext
+
+theorem invR_waiting {g snap : Nat} (hi : Inv cfg s) (hr : InvR cfg s) (hv : cfg.variant = .repaired) (hw : w < cfg.n) (hpc : s.pc w = .waiting g snap)
+    (hnext : next cfg w (cfg.worker w) (.waiting g snap) (s.map (cfg.worker w).inode) s.calls s.dst = some (l, e)) :
+    InvR cfg (s.apply w (cfg.worker w).inode e) := by
+  invR_case hi hr hpc w hnext
+
+theorem invR_linkOp {p k : Nat} (hi : Inv cfg s) (hr : InvR cfg s) (hv : cfg.variant = .repaired) (hw : w < cfg.n) (hpc : s.pc w = .linkOp p k)
+    (hnext : next cfg w (cfg.worker w) (.linkOp p k) (s.map (cfg.worker w).inode) s.calls s.dst = some (l, e)) :
+    InvR cfg (s.apply w (cfg.worker w).inode e) := by
+  cases k <;> invR_case hi hr hpc w hnext
+
+theorem invR_sameOp {p : Nat} (hi : Inv cfg s) (hr : InvR cfg s) (hv : cfg.variant = .repaired) (hw : w < cfg.n) (hpc : s.pc w = .sameOp p)
+    (hnext : next cfg w (cfg.worker w) (.sameOp p) (s.map (cfg.worker w).inode) s.calls s.dst = some (l, e)) :
+    InvR cfg (s.apply w (cfg.worker w).inode e) := by
+  invR_case hi hr hpc w hnext
+
+theorem invR_removeOp {p k : Nat} (hi : Inv cfg s) (hr : InvR cfg s) (hv : cfg.variant = .repaired) (hw : w < cfg.n) (hpc : s.pc w = .removeOp p k)
+    (hnext : next cfg w (cfg.worker w) (.removeOp p k) (s.map (cfg.worker w).inode) s.calls s.dst = some (l, e)) :
+    InvR cfg (s.apply w (cfg.worker w).inode e) := by
+  cases k <;> invR_case hi hr hpc w hnext
+
+theorem invR_mkdirOp {k : Nat} (hi : Inv cfg s) (hr : InvR cfg s) (hv : cfg.variant = .repaired) (hw : w < cfg.n) (hpc : s.pc w = .mkdirOp k)
+    (hnext : next cfg w (cfg.worker w) (.mkdirOp k) (s.map (cfg.worker w).inode) s.calls s.dst = some (l, e)) :
+    InvR cfg (s.apply w (cfg.worker w).inode e) := by
+  cases k <;> invR_case hi hr hpc w hnext
+
+theorem invR_copyOp {k : Nat} (hi : Inv cfg s) (hr : InvR cfg s) (hv : cfg.variant = .repaired) (hw : w < cfg.n) (hpc : s.pc w = .copyOp k)
+    (hnext : next cfg w (cfg.worker w) (.copyOp k) (s.map (cfg.worker w).inode) s.calls s.dst = some (l, e)) :
+    InvR cfg (s.apply w (cfg.worker w).inode e) := by
+  cases k <;> invR_case hi hr hpc w hnext
+
+theorem invR_syncOp {k : Nat} (hi : Inv cfg s) (hr : InvR cfg s) (hv : cfg.variant = .repaired) (hw : w < cfg.n) (hpc : s.pc w = .syncOp k)
+    (hnext : next cfg w (cfg.worker w) (.syncOp k) (s.map (cfg.worker w).inode) s.calls s.dst = some (l, e)) :
+    InvR cfg (s.apply w (cfg.worker w).inode e) := by
+  cases k <;> invR_case hi hr hpc w hnext
+
+theorem invR_metaOp (hi : Inv cfg s) (hr : InvR cfg s) (hv : cfg.variant = .repaired) (hw : w < cfg.n) (hpc : s.pc w = .metaOp)
+    (hnext : next cfg w (cfg.worker w) .metaOp (s.map (cfg.worker w).inode) s.calls s.dst = some (l, e)) :
+    InvR cfg (s.apply w (cfg.worker w).inode e) := by
+  invR_case hi hr hpc w hnext
+
+theorem invR_complete (hi : Inv cfg s) (hr : InvR cfg s) (hv : cfg.variant = .repaired) (hw : w < cfg.n) (hpc : s.pc w = .complete)
+    (hnext : next cfg w (cfg.worker w) .complete (s.map (cfg.worker w).inode) s.calls s.dst = some (l, e)) :
+    InvR cfg (s.apply w (cfg.worker w).inode e) := by
+  invR_case hi hr hpc w hnext
+
+theorem invR_notifyOk (hi : Inv cfg s) (hr : InvR cfg s) (hv : cfg.variant = .repaired) (hw : w < cfg.n) (hpc : s.pc w = .notifyOk)
+    (hnext : next cfg w (cfg.worker w) .notifyOk (s.map (cfg.worker w).inode) s.calls s.dst = some (l, e)) :
+    InvR cfg (s.apply w (cfg.worker w).inode e) := by
+  invR_case hi hr hpc w hnext
+
+theorem invR_cleanup {op : Op} (hi : Inv cfg s) (hr : InvR cfg s) (hv : cfg.variant = .repaired) (hw : w < cfg.n) (hpc : s.pc w = .cleanup op)
+    (hnext : next cfg w (cfg.worker w) (.cleanup op) (s.map (cfg.worker w).inode) s.calls s.dst = some (l, e)) :
+    InvR cfg (s.apply w (cfg.worker w).inode e) := by
+  invR_case hi hr hpc w hnext
+
+theorem invR_failNotify {op : Op} (hi : Inv cfg s) (hr : InvR cfg s) (hv : cfg.variant = .repaired) (hw : w < cfg.n) (hpc : s.pc w = .failNotify op)
+    (hnext : next cfg w (cfg.worker w) (.failNotify op) (s.map (cfg.worker w).inode) s.calls s.dst = some (l, e)) :
+    InvR cfg (s.apply w (cfg.worker w).inode e) := by
+  invR_case hi hr hpc w hnext
+
+theorem invD_start (hi : Inv cfg s) (hd : InvD cfg s) (hw : w < cfg.n) (hpc : s.pc w = .start)
+    (hnext : next cfg w (cfg.worker w) .start (s.map (cfg.worker w).inode) s.calls s.dst = some (l, e)) :
+    InvD cfg (s.apply w (cfg.worker w).inode e) := by
+  invD_case hi hd hpc w hnext
+
+theorem invD_sawNone (hi : Inv cfg s) (hd : InvD cfg s) (hw : w < cfg.n) (hpc : s.pc w = .sawNone)
+    (hnext : next cfg w (cfg.worker w) .sawNone (s.map (cfg.worker w).inode) s.calls s.dst = some (l, e)) :
+    InvD cfg (s.apply w (cfg.worker w).inode e) := by
+  invD_case hi hd hpc w hnext
+
+theorem invD_sawInProgress {g : Nat} (hi : Inv cfg s) (hd : InvD cfg s) (hw : w < cfg.n) (hpc : s.pc w = .sawInProgress g)
+    (hnext : next cfg w (cfg.worker w) (.sawInProgress g) (s.map (cfg.worker w).inode) s.calls s.dst = some (l, e)) :
+    InvD cfg (s.apply w (cfg.worker w).inode e) := by
+  invD_case hi hd hpc w hnext
+
+theorem invD_armed {g snap : Nat} (hi : Inv cfg s) (hd : InvD cfg s) (hw : w < cfg.n) (hpc : s.pc w = .armed g snap)
+    (hnext : next cfg w (cfg.worker w) (.armed g snap) (s.map (cfg.worker w).inode) s.calls s.dst = some (l, e)) :
+    InvD cfg (s.apply w (cfg.worker w).inode e) := by
+  invD_case hi hd hpc w hnext
+
+theorem invD_waiting {g snap : Nat} (hi : Inv cfg s) (hd : InvD cfg s) (hw : w < cfg.n) (hpc : s.pc w = .waiting g snap)
+    (hnext : next cfg w (cfg.worker w) (.waiting g snap) (s.map (cfg.worker w).inode) s.calls s.dst = some (l, e)) :
+    InvD cfg (s.apply w (cfg.worker w).inode e) := by
+  invD_case hi hd hpc w hnext
+
+theorem invD_linkOp {p k : Nat} (hi : Inv cfg s) (hd : InvD cfg s) (hw : w < cfg.n) (hpc : s.pc w = .linkOp p k)
+    (hnext : next cfg w (cfg.worker w) (.linkOp p k) (s.map (cfg.worker w).inode) s.calls s.dst = some (l, e)) :
+    InvD cfg (s.apply w (cfg.worker w).inode e) := by
+  cases k <;> invD_case hi hd hpc w hnext
+
+theorem invD_sameOp {p : Nat} (hi : Inv cfg s) (hd : InvD cfg s) (hw : w < cfg.n) (hpc : s.pc w = .sameOp p)
+    (hnext : next cfg w (cfg.worker w) (.sameOp p) (s.map (cfg.worker w).inode) s.calls s.dst = some (l, e)) :
+    InvD cfg (s.apply w (cfg.worker w).inode e) := by
+  invD_case hi hd hpc w hnext
+
+theorem invD_removeOp {p k : Nat} (hi : Inv cfg s) (hd : InvD cfg s) (hw : w < cfg.n) (hpc : s.pc w = .removeOp p k)
+    (hnext : next cfg w (cfg.worker w) (.removeOp p k) (s.map (cfg.worker w).inode) s.calls s.dst = some (l, e)) :
+    InvD cfg (s.apply w (cfg.worker w).inode e) := by
+  cases k <;> invD_case hi hd hpc w hnext
+
+theorem invD_mkdirOp {k : Nat} (hi : Inv cfg s) (hd : InvD cfg s) (hw : w < cfg.n) (hpc : s.pc w = .mkdirOp k)
+    (hnext : next cfg w (cfg.worker w) (.mkdirOp k) (s.map (cfg.worker w).inode) s.calls s.dst = some (l, e)) :
+    InvD cfg (s.apply w (cfg.worker w).inode e) := by
+  cases k <;> invD_case hi hd hpc w hnext
+
+theorem invD_copyOp {k : Nat} (hi : Inv cfg s) (hd : InvD cfg s) (hw : w < cfg.n) (hpc : s.pc w = .copyOp k)
+    (hnext : next cfg w (cfg.worker w) (.copyOp k) (s.map (cfg.worker w).inode) s.calls s.dst = some (l, e)) :
+    InvD cfg (s.apply w (cfg.worker w).inode e) := by
+  cases k <;> invD_case hi hd hpc w hnext
+
+theorem invD_syncOp {k : Nat} (hi : Inv cfg s) (hd : InvD cfg s) (hw : w < cfg.n) (hpc : s.pc w = .syncOp k)
+    (hnext : next cfg w (cfg.worker w) (.syncOp k) (s.map (cfg.worker w).inode) s.calls s.dst = some (l, e)) :
+    InvD cfg (s.apply w (cfg.worker w).inode e) := by
+  cases k <;> invD_case hi hd hpc w hnext
+
+theorem invD_metaOp (hi : Inv cfg s) (hd : InvD cfg s) (hw : w < cfg.n) (hpc : s.pc w = .metaOp)
+    (hnext : next cfg w (cfg.worker w) .metaOp (s.map (cfg.worker w).inode) s.calls s.dst = some (l, e)) :
+    InvD cfg (s.apply w (cfg.worker w).inode e) := by
+  invD_case hi hd hpc w hnext
+
+theorem invD_complete (hi : Inv cfg s) (hd : InvD cfg s) (hw : w < cfg.n) (hpc : s.pc w = .complete)
+    (hnext : next cfg w (cfg.worker w) .complete (s.map (cfg.worker w).inode) s.calls s.dst = some (l, e)) :
+    InvD cfg (s.apply w (cfg.worker w).inode e) := by
+  invD_case hi hd hpc w hnext
+
+theorem invD_notifyOk (hi : Inv cfg s) (hd : InvD cfg s) (hw : w < cfg.n) (hpc : s.pc w = .notifyOk)
+    (hnext : next cfg w (cfg.worker w) .notifyOk (s.map (cfg.worker w).inode) s.calls s.dst = some (l, e)) :
+    InvD cfg (s.apply w (cfg.worker w).inode e) := by
+  invD_case hi hd hpc w hnext
+
+theorem invD_cleanup {op : Op} (hi : Inv cfg s) (hd : InvD cfg s) (hw : w < cfg.n) (hpc : s.pc w = .cleanup op)
+    (hnext : next cfg w (cfg.worker w) (.cleanup op) (s.map (cfg.worker w).inode) s.calls s.dst = some (l, e)) :
+    InvD cfg (s.apply w (cfg.worker w).inode e) := by
+  invD_case hi hd hpc w hnext
+
+theorem invD_failNotify {op : Op} (hi : Inv cfg s) (hd : InvD cfg s) (hw : w < cfg.n) (hpc : s.pc w = .failNotify op)
+    (hnext : next cfg w (cfg.worker w) (.failNotify op) (s.map (cfg.worker w).inode) s.calls s.dst = some (l, e)) :
+    InvD cfg (s.apply w (cfg.worker w).inode e) := by
+  invD_case hi hd hpc w hnext
+
 end
 
-/-- `Inv` is preserved by every micro-step of every worker (both variants). -/
 theorem inv_step {cfg : Cfg} {s s' : State} {w : Nat} {l : Label} (hi : Inv cfg s)
     (h : step cfg s w = some (l, s')) : Inv cfg s' := by
   obtain ⟨hw, e, hnext, rfl⟩ := step_eq_some h
@@ -208,8 +583,11 @@ theorem inv_step {cfg : Cfg} {s s' : State} {w : Nat} {l : Label} (hi : Inv cfg 
   case armed g snap => exact inv_armed hi hw hpc hnext
   case waiting g snap => exact inv_waiting hi hw hpc hnext
   case linkOp p k => exact inv_linkOp hi hw hpc hnext
+  case sameOp p => exact inv_sameOp hi hw hpc hnext
+  case removeOp p k => exact inv_removeOp hi hw hpc hnext
   case mkdirOp k => exact inv_mkdirOp hi hw hpc hnext
   case copyOp k => exact inv_copyOp hi hw hpc hnext
+  case syncOp k => exact inv_syncOp hi hw hpc hnext
   case metaOp => exact inv_metaOp hi hw hpc hnext
   case complete => exact inv_complete hi hw hpc hnext
   case notifyOk => exact inv_notifyOk hi hw hpc hnext
@@ -217,110 +595,8 @@ theorem inv_step {cfg : Cfg} {s s' : State} {w : Nat} {l : Label} (hi : Inv cfg 
   case failNotify op => exact inv_failNotify hi hw hpc hnext
   case done r => simp [next] at hnext
 
-/-! ### preservation of the repaired-protocol clauses -/
-
-macro "invR_clauses" : tactic => `(tactic| (
-  constructor
-  · intro v g; simp only [State.apply]; grind [Pc.waitsOn, Pc.holdsClaim, Pc.notifying]
-  · intro v g snap; simp only [State.apply]; grind [Pc.holdsClaim, Pc.isDone, Pc.holdsClaim_not_done]
-  · intro v g snap; simp only [State.apply]; grind))
-
-macro "invR_case" hi:ident hr:ident hpc:ident w:ident hnext:ident : tactic => `(tactic| (
-  inv_pre $hi $hpc $w
-  obtain ⟨r1, r2, r3⟩ := $hr
-  have hr1 := r1 $w
-  simp only [$hpc:ident, Pc.waitsOn] at hr1
-  simp only [next, failPc] at $hnext:ident
-  (repeat' split at $hnext:ident) <;> (cases $hnext:ident <;> invR_clauses)))
-
-section
-variable {cfg : Cfg} {s : State} {w : Nat} {l : Label} {e : Effect}
-
-theorem invR_start (hi : Inv cfg s) (hr : InvR cfg s) (hv : cfg.variant = .repaired) (hw : w < cfg.n)
-    (hpc : s.pc w = .start)
-    (hnext : next cfg w (cfg.worker w) .start (s.map (cfg.worker w).inode) s.calls s.dst = some (l, e)) :
-    InvR cfg (s.apply w (cfg.worker w).inode e) := by
-  invR_case hi hr hpc w hnext
-
-theorem invR_sawNone (hi : Inv cfg s) (hr : InvR cfg s) (hv : cfg.variant = .repaired) (hw : w < cfg.n)
-    (hpc : s.pc w = .sawNone)
-    (hnext : next cfg w (cfg.worker w) .sawNone (s.map (cfg.worker w).inode) s.calls s.dst = some (l, e)) :
-    InvR cfg (s.apply w (cfg.worker w).inode e) := by
-  invR_case hi hr hpc w hnext
-
-theorem invR_sawInProgress {g : Nat} (hi : Inv cfg s) (hr : InvR cfg s) (hv : cfg.variant = .repaired)
-    (hw : w < cfg.n) (hpc : s.pc w = .sawInProgress g)
-    (hnext : next cfg w (cfg.worker w) (.sawInProgress g) (s.map (cfg.worker w).inode) s.calls s.dst = some (l, e)) :
-    InvR cfg (s.apply w (cfg.worker w).inode e) := by
-  invR_case hi hr hpc w hnext
-
-theorem invR_armed {g snap : Nat} (hi : Inv cfg s) (hr : InvR cfg s) (hv : cfg.variant = .repaired)
-    (hw : w < cfg.n) (hpc : s.pc w = .armed g snap)
-    (hnext : next cfg w (cfg.worker w) (.armed g snap) (s.map (cfg.worker w).inode) s.calls s.dst = some (l, e)) :
-    InvR cfg (s.apply w (cfg.worker w).inode e) := by
-  have hsnap := hr.snapArmed w g snap hpc
-  have hnot := hi.notified g
-  invR_case hi hr hpc w hnext
-
-theorem invR_waiting {g snap : Nat} (hi : Inv cfg s) (hr : InvR cfg s) (hv : cfg.variant = .repaired)
-    (hw : w < cfg.n) (hpc : s.pc w = .waiting g snap)
-    (hnext : next cfg w (cfg.worker w) (.waiting g snap) (s.map (cfg.worker w).inode) s.calls s.dst = some (l, e)) :
-    InvR cfg (s.apply w (cfg.worker w).inode e) := by
-  invR_case hi hr hpc w hnext
-
-theorem invR_linkOp {p k : Nat} (hi : Inv cfg s) (hr : InvR cfg s) (hv : cfg.variant = .repaired)
-    (hw : w < cfg.n) (hpc : s.pc w = .linkOp p k)
-    (hnext : next cfg w (cfg.worker w) (.linkOp p k) (s.map (cfg.worker w).inode) s.calls s.dst = some (l, e)) :
-    InvR cfg (s.apply w (cfg.worker w).inode e) := by
-  cases k <;> invR_case hi hr hpc w hnext
-
-theorem invR_mkdirOp {k : Nat} (hi : Inv cfg s) (hr : InvR cfg s) (hv : cfg.variant = .repaired)
-    (hw : w < cfg.n) (hpc : s.pc w = .mkdirOp k)
-    (hnext : next cfg w (cfg.worker w) (.mkdirOp k) (s.map (cfg.worker w).inode) s.calls s.dst = some (l, e)) :
-    InvR cfg (s.apply w (cfg.worker w).inode e) := by
-  cases k <;> invR_case hi hr hpc w hnext
-
-theorem invR_copyOp {k : Nat} (hi : Inv cfg s) (hr : InvR cfg s) (hv : cfg.variant = .repaired)
-    (hw : w < cfg.n) (hpc : s.pc w = .copyOp k)
-    (hnext : next cfg w (cfg.worker w) (.copyOp k) (s.map (cfg.worker w).inode) s.calls s.dst = some (l, e)) :
-    InvR cfg (s.apply w (cfg.worker w).inode e) := by
-  cases k <;> invR_case hi hr hpc w hnext
-
-theorem invR_metaOp (hi : Inv cfg s) (hr : InvR cfg s) (hv : cfg.variant = .repaired) (hw : w < cfg.n)
-    (hpc : s.pc w = .metaOp)
-    (hnext : next cfg w (cfg.worker w) .metaOp (s.map (cfg.worker w).inode) s.calls s.dst = some (l, e)) :
-    InvR cfg (s.apply w (cfg.worker w).inode e) := by
-  invR_case hi hr hpc w hnext
-
-theorem invR_complete (hi : Inv cfg s) (hr : InvR cfg s) (hv : cfg.variant = .repaired) (hw : w < cfg.n)
-    (hpc : s.pc w = .complete)
-    (hnext : next cfg w (cfg.worker w) .complete (s.map (cfg.worker w).inode) s.calls s.dst = some (l, e)) :
-    InvR cfg (s.apply w (cfg.worker w).inode e) := by
-  invR_case hi hr hpc w hnext
-
-theorem invR_notifyOk (hi : Inv cfg s) (hr : InvR cfg s) (hv : cfg.variant = .repaired) (hw : w < cfg.n)
-    (hpc : s.pc w = .notifyOk)
-    (hnext : next cfg w (cfg.worker w) .notifyOk (s.map (cfg.worker w).inode) s.calls s.dst = some (l, e)) :
-    InvR cfg (s.apply w (cfg.worker w).inode e) := by
-  invR_case hi hr hpc w hnext
-
-theorem invR_cleanup {op : Op} (hi : Inv cfg s) (hr : InvR cfg s) (hv : cfg.variant = .repaired)
-    (hw : w < cfg.n) (hpc : s.pc w = .cleanup op)
-    (hnext : next cfg w (cfg.worker w) (.cleanup op) (s.map (cfg.worker w).inode) s.calls s.dst = some (l, e)) :
-    InvR cfg (s.apply w (cfg.worker w).inode e) := by
-  invR_case hi hr hpc w hnext
-
-theorem invR_failNotify {op : Op} (hi : Inv cfg s) (hr : InvR cfg s) (hv : cfg.variant = .repaired)
-    (hw : w < cfg.n) (hpc : s.pc w = .failNotify op)
-    (hnext : next cfg w (cfg.worker w) (.failNotify op) (s.map (cfg.worker w).inode) s.calls s.dst = some (l, e)) :
-    InvR cfg (s.apply w (cfg.worker w).inode e) := by
-  invR_case hi hr hpc w hnext
-
-end
-
-/-- `InvR` is preserved by every micro-step of the repaired protocol. -/
-theorem invR_step {cfg : Cfg} {s s' : State} {w : Nat} {l : Label} (hv : cfg.variant = .repaired)
-    (hi : Inv cfg s) (hr : InvR cfg s) (h : step cfg s w = some (l, s')) : InvR cfg s' := by
+theorem invR_step {cfg : Cfg} {s s' : State} {w : Nat} {l : Label} (hv : cfg.variant = .repaired) (hi : Inv cfg s) (hr : InvR cfg s)
+    (h : step cfg s w = some (l, s')) : InvR cfg s' := by
   obtain ⟨hw, e, hnext, rfl⟩ := step_eq_some h
   cases hpc : s.pc w <;> rw [hpc] at hnext
   case start => exact invR_start hi hr hv hw hpc hnext
@@ -329,14 +605,49 @@ theorem invR_step {cfg : Cfg} {s s' : State} {w : Nat} {l : Label} (hv : cfg.var
   case armed g snap => exact invR_armed hi hr hv hw hpc hnext
   case waiting g snap => exact invR_waiting hi hr hv hw hpc hnext
   case linkOp p k => exact invR_linkOp hi hr hv hw hpc hnext
+  case sameOp p => exact invR_sameOp hi hr hv hw hpc hnext
+  case removeOp p k => exact invR_removeOp hi hr hv hw hpc hnext
   case mkdirOp k => exact invR_mkdirOp hi hr hv hw hpc hnext
   case copyOp k => exact invR_copyOp hi hr hv hw hpc hnext
+  case syncOp k => exact invR_syncOp hi hr hv hw hpc hnext
   case metaOp => exact invR_metaOp hi hr hv hw hpc hnext
   case complete => exact invR_complete hi hr hv hw hpc hnext
   case notifyOk => exact invR_notifyOk hi hr hv hw hpc hnext
   case cleanup op => exact invR_cleanup hi hr hv hw hpc hnext
   case failNotify op => exact invR_failNotify hi hr hv hw hpc hnext
   case done r => simp [next] at hnext
+
+theorem invD_step {cfg : Cfg} {s s' : State} {w : Nat} {l : Label} (hi : Inv cfg s) (hd : InvD cfg s)
+    (h : step cfg s w = some (l, s')) : InvD cfg s' := by
+  obtain ⟨hw, e, hnext, rfl⟩ := step_eq_some h
+  cases hpc : s.pc w <;> rw [hpc] at hnext
+  case start => exact invD_start hi hd hw hpc hnext
+  case sawNone => exact invD_sawNone hi hd hw hpc hnext
+  case sawInProgress g => exact invD_sawInProgress hi hd hw hpc hnext
+  case armed g snap => exact invD_armed hi hd hw hpc hnext
+  case waiting g snap => exact invD_waiting hi hd hw hpc hnext
+  case linkOp p k => exact invD_linkOp hi hd hw hpc hnext
+  case sameOp p => exact invD_sameOp hi hd hw hpc hnext
+  case removeOp p k => exact invD_removeOp hi hd hw hpc hnext
+  case mkdirOp k => exact invD_mkdirOp hi hd hw hpc hnext
+  case copyOp k => exact invD_copyOp hi hd hw hpc hnext
+  case syncOp k => exact invD_syncOp hi hd hw hpc hnext
+  case metaOp => exact invD_metaOp hi hd hw hpc hnext
+  case complete => exact invD_complete hi hd hw hpc hnext
+  case notifyOk => exact invD_notifyOk hi hd hw hpc hnext
+  case cleanup op => exact invD_cleanup hi hd hw hpc hnext
+  case failNotify op => exact invD_failNotify hi hd hw hpc hnext
+  case done r => simp [next] at hnext
+
+theorem inv_exec {cfg : Cfg} {s s' : State} {sched : List Nat} (hi : Inv cfg s)
+    (h : Exec cfg s sched s') : Inv cfg s' := by
+  induction h with
+  | nil s => exact hi
+  | cons hstep _ ih => exact ih (inv_step hi hstep)
+
+theorem inv_reachable {cfg : Cfg} {s : State} (h : Reachable cfg s) : Inv cfg s := by
+  obtain ⟨sched, hex⟩ := h
+  exact inv_exec (inv_init cfg) hex
 
 theorem invR_exec {cfg : Cfg} {s s' : State} {sched : List Nat} (hv : cfg.variant = .repaired)
     (hi : Inv cfg s) (hr : InvR cfg s) (h : Exec cfg s sched s') : InvR cfg s' := by
@@ -349,14 +660,15 @@ theorem invR_reachable {cfg : Cfg} {s : State} (hv : cfg.variant = .repaired) (h
   obtain ⟨sched, hex⟩ := h
   exact invR_exec hv (inv_init cfg) (invR_init cfg) hex
 
-theorem inv_exec {cfg : Cfg} {s s' : State} {sched : List Nat} (hi : Inv cfg s)
-    (h : Exec cfg s sched s') : Inv cfg s' := by
+theorem invD_exec {cfg : Cfg} {s s' : State} {sched : List Nat}
+    (hi : Inv cfg s) (hd : InvD cfg s) (h : Exec cfg s sched s') : InvD cfg s' := by
   induction h with
-  | nil s => exact hi
-  | cons hstep _ ih => exact ih (inv_step hi hstep)
+  | nil s => exact hd
+  | cons hstep _ ih => exact ih (inv_step hi hstep) (invD_step hi hd hstep)
 
-theorem inv_reachable {cfg : Cfg} {s : State} (h : Reachable cfg s) : Inv cfg s := by
+theorem invD_reachable {cfg : Cfg} {s : State} (hok : cfg.DstOk) (h : Reachable cfg s) :
+    InvD cfg s := by
   obtain ⟨sched, hex⟩ := h
-  exact inv_exec (inv_init cfg) hex
+  exact invD_exec (inv_init cfg) (invD_init cfg hok) hex
 
 end SyModel.Hardlink
